@@ -49,7 +49,8 @@ typedef struct {
   int up;                   /* loadupdb/loadupib used on it */
   int up_interp;            /* ... loadupib (reads (i>>1)+1 for odd i) */
   int plain;                /* read by an ordinary access of elements 0..n-1 */
-  int res_b, res_c;         /* ldres*: var indices of b and c operands (-1 none) */
+  int res_b, res_c;         /* ldres*: var indices of b and c operands of the LAST such access (-1 none) */
+  int nres, res_bv[4], res_cv[4];   /* every ldres* access of this array (an array may be resampled twice) */
   int res_lin;
   int read, wrote_mem;
   int use_lsize, use_mult;  /* first use of a constant/parameter: lane size and prefix multiplier */
